@@ -30,3 +30,246 @@ package bfe_spdy
 //@   ensures[refused_iff_sum_not_representable] result0 <==> (-2147483648 <= old(f.n) + n && old(f.n) + n <= 2147483647)
 //@   ensures[added] result0 ==> f.n == old(f.n) + n
 //@   ensures[unchanged_when_refused] !result0 ==> f.n == old(f.n)
+
+// ---- C40: inbound flow-control accounting of the SPDY server (same shape as the HTTP/2 one) ----
+
+//@ func (*serverConn).sendWindowUpdate32
+//@   props C40
+//@   requires sc != nil && n >= 0
+//@   frame Check pure
+//@   frame writeFrame keeps any flow.n
+//@   note scheduling a WINDOW_UPDATE frame (writeFrame) is assumed not to touch any flow-control window
+//@   modifies *
+//@   ensures[connection_window_reopened_by_n] st == nil ==> sc.inflow.n == old(sc.inflow.n) + n
+//@   ensures[no_other_window_moves] forall w *flow :: w != embed(sc, "inflow") && (st == nil || w != embed(st, "inflow")) ==> w.n == old(w.n)
+//@   ensures[stream_window_reopened_by_n] st != nil ==> st.inflow.n == old(st.inflow.n) + n && sc.inflow.n == old(sc.inflow.n)
+
+//@ func (*serverConn).sendWindowUpdate
+//@   props C40
+//@   requires sc != nil && 0 <= n && n < 2147483647
+//@   frame Check pure
+//@   modifies *
+//@   ensures[connection_window_reopened_by_n] st == nil ==> sc.inflow.n == old(sc.inflow.n) + n
+//@   ensures[no_other_window_moves] forall w *flow :: w != embed(sc, "inflow") && (st == nil || w != embed(st, "inflow")) ==> w.n == old(w.n)
+//@   ensures[stream_window_reopened_by_n] st != nil ==> st.inflow.n == old(st.inflow.n) + n && sc.inflow.n == old(sc.inflow.n)
+//@   loop 1 invariant n == old(n) && (forall w *flow :: w.n == old(w.n))
+
+//@ func (*serverConn).noteBodyRead
+//@   props C40
+//@   requires sc != nil && st != nil && embed(st, "inflow") != embed(sc, "inflow") && 0 <= n && n < 2147483647
+//@   frame Check pure
+//@   frame sendWindowUpdate keeps st.state
+//@   modifies *
+//@   ensures[consumed_octets_returned_to_the_connection_window] sc.inflow.n == old(sc.inflow.n) + n
+//@   ensures[and_to_the_stream_window_while_the_client_may_still_send] old(st.state) != stateHalfClosedRemote && old(st.state) != stateClosed ==> st.inflow.n == old(st.inflow.n) + n
+
+//@ func (*DataFrame).StreamEnded
+//@   props C40
+//@   nopanic
+//@   requires f != nil
+//@   modifies nothing
+
+//@ func (*serverConn).processData
+//@   props C40
+//@   nopanic panic
+//@   requires sc != nil && f != nil && len(f.Data) <= 16777215
+//@   requires sc.inflow.conn == nil
+//@   requires forall id uint32 :: has(sc.streams, id) ==> sc.streams[id] != nil && sc.streams[id].inflow.conn == embed(sc, "inflow") && embed(sc.streams[id], "inflow") != embed(sc, "inflow") && (sc.streams[id].state == stateOpen ==> sc.streams[id].body != nil)
+//@   frame Check pure
+//@   frame Write keeps any flow.n, any stream.body
+//@   frame CloseWithError keeps any flow.n
+//@   frame Stop pure
+//@   frame sendWindowUpdate keeps any stream.body
+//@   note writing to / closing the request-body pipe is assumed not to touch any flow-control window
+//@   modifies *
+//@   ensures[never_more_than_the_advertised_windows] result0 == nil && len(old(f.Data)) > 0 ==> len(old(f.Data)) <= int(old(sc.inflow.n)) && len(old(f.Data)) <= int(old(sc.streams[uint32(f.StreamId)].inflow.n))
+//@   ensures[a_refused_frame_keeps_at_most_the_octets_it_carried] result0 != nil ==> old(sc.inflow.n) - int32(len(old(f.Data))) <= sc.inflow.n && sc.inflow.n <= old(sc.inflow.n)
+//@   assert[when_the_body_refuses_the_data_only_the_octets_it_took_stay_charged] at "return StreamError{id, StreamAlreadyClosed}" #2 :: int(sc.inflow.n) == int(old(sc.inflow.n)) - wrote
+//@   ensures[an_accepted_frame_costs_exactly_its_data_octets] result0 == nil ==> sc.inflow.n == old(sc.inflow.n) - int32(len(old(f.Data)))
+//@   ensures[data_for_unknown_or_closed_streams_is_refused] !old(has(sc.streams, uint32(f.StreamId))) || old(sc.streams[uint32(f.StreamId)].state) != stateOpen ==> result0 != nil
+
+// ---- C40: stream ids, frames for closed streams, internal panics ----
+
+//@ spec wfStream(st *stream) bool := (st.state == stateOpen || st.state == stateHalfClosedLocal || st.state == stateHalfClosedRemote) && (st.state == stateOpen ==> st.body != nil)
+//@ spec wfStreams(sc *serverConn) bool := forall id uint32 :: has(sc.streams, id) ==> sc.streams[id] != nil && wfStream(sc.streams[id])
+
+//@ func (*SynStreamFrame).StreamEnded
+//@   props C40
+//@   nopanic
+//@   requires f != nil
+//@   modifies nothing
+
+//@ func (*serverConn).state
+//@   props C40
+//@   requires sc != nil && wfStreams(sc)
+//@   frame Check pure
+//@   modifies nothing
+//@   ensures[a_known_stream_reports_itself] has(sc.streams, streamID) ==> result1 == sc.streams[streamID] && result0 == sc.streams[streamID].state
+//@   ensures[an_unknown_stream_is_closed_or_idle_by_its_id] !has(sc.streams, streamID) ==> result1 == nil && result0 == (streamID <= sc.maxStreamID ? stateClosed : stateIdle)
+
+//@ func (*serverConn).closeStream
+//@   props C40
+//@   nopanic panic
+//@   requires sc != nil && st != nil
+//@   requires[only_a_live_stream_is_closed] st.state != stateIdle && st.state != stateClosed
+//@   frame Check pure
+//@   frame Stop pure
+//@   assume[the_scheduler_holds_no_nil_queue] at "sc.writeSched.forgetStream(st.id)" :: forall k uint32 :: has(sc.writeSched.sq, k) ==> sc.writeSched.sq[k] != nil
+//@   modifies *
+
+//@ func (*serverConn).processResetStream
+//@   props C40
+//@   nopanic panic
+//@   requires sc != nil && f != nil && wfStreams(sc)
+//@   frame Check pure
+//@   modifies *
+//@   ensures[a_reset_for_an_idle_stream_is_a_session_error] !old(has(sc.streams, uint32(f.StreamId))) && uint32(old(f.StreamId)) > old(sc.maxStreamID) ==> result0 != nil
+
+//@ func (*serverConn).processWindowUpdate
+//@   props C40
+//@   nopanic panic
+//@   requires sc != nil && f != nil && (forall id uint32 :: has(sc.streams, id) ==> sc.streams[id] != nil)
+//@   frame Check pure
+//@   frame scheduleFrameWrite keeps any flow.n
+//@   note tickling the write scheduler is assumed not to touch any flow-control window
+//@   modifies *
+//@   ensures[an_increment_that_overflows_the_connection_window_is_an_error] old(f.StreamId) == 0 && !(-2147483648 <= int(old(sc.flow.n)) + int(int32(old(f.DeltaWindowSize))) && int(old(sc.flow.n)) + int(int32(old(f.DeltaWindowSize))) <= 2147483647) ==> result0 != nil
+//@   ensures[otherwise_the_connection_send_window_grows_by_the_increment] old(f.StreamId) == 0 && result0 == nil ==> int(sc.flow.n) == int(old(sc.flow.n)) + int(int32(old(f.DeltaWindowSize)))
+
+//@ func (*serverConn).processSynStream
+//@   props C40
+//@   requires sc != nil && f != nil && wfStreams(sc)
+//@   frame Check pure
+//@   frame * keeps sc.maxStreamID, sc.streams, sc.streams[..], any stream.state, any stream.body, sc.curOpenStreams, sc.advMaxStreams, f.StreamId
+//@   note the helpers called on the way (rate check, go-away, connection-state hook, building the request) are assumed not to change the stream table, the streams' state/body or the stream counters
+//@   modifies *
+//@   assert[a_new_stream_has_an_odd_id_above_every_earlier_one] at "sc.streams[id] = st" :: id % 2 == 1 && id > old(sc.maxStreamID) && sc.maxStreamID == id
+//@   assert[a_request_is_only_started_within_the_advertised_concurrency_limit] at "sc.newWriterAndRequest(st, f)" :: sc.curOpenStreams <= sc.advMaxStreams
+//@   ensures[the_highest_stream_id_never_decreases] sc.maxStreamID >= old(sc.maxStreamID)
+
+// ---- C40 (outbound half, same code as HTTP/2): outbound DATA frames respect the peer's windows and the maximum frame size; order is kept ----
+
+//@ func (*writeQueue).empty
+//@   props C40
+//@   nopanic
+//@   requires q != nil
+//@   modifies nothing
+//@   ensures result0 == (len(q.s) == 0)
+
+//@ func (*writeQueue).head
+//@   props C40
+//@   nopanic
+//@   requires q != nil && len(q.s) > 0
+//@   modifies nothing
+//@   ensures result0 == q.s[0]
+
+//@ func (*writeQueue).streamID
+//@   props C40
+//@   nopanic
+//@   requires q != nil && len(q.s) > 0 && q.s[0].stream != nil
+//@   modifies nothing
+//@   ensures result0 == q.s[0].stream.id
+
+//@ func (*writeQueue).firstIsNoCost
+//@   props C40
+//@   nopanic
+//@   requires q != nil && len(q.s) > 0
+//@   requires typeis(q.s[0].frame, "*DataFrame") ==> unbox(q.s[0].frame, "*DataFrame") != nil
+//@   modifies nothing
+//@   ensures[only_non_empty_data_costs_flow_control] result0 == !(typeis(q.s[0].frame, "*DataFrame") && len(unbox(q.s[0].frame, "*DataFrame").Data) > 0)
+
+//@ func (*writeQueue).shift
+//@   props C40
+//@   nopanic
+//@   requires q != nil && len(q.s) > 0
+//@   modifies q.s, q.s[..]
+//@   ensures[the_oldest_message_is_removed] result0 == old(q.s[0]) && len(q.s) == old(len(q.s)) - 1
+//@   ensures[the_others_keep_their_order] forall i int :: 0 <= i && i < len(q.s) ==> q.s[i] == old(q.s[i+1])
+
+//@ func (*writeQueue).push
+//@   props C40
+//@   nopanic
+//@   requires q != nil
+//@   modifies q.s, q.s[0:cap(q.s)]
+//@   ensures[appended_at_the_tail] len(q.s) == old(len(q.s)) + 1 && q.s[len(q.s)-1] == wm
+//@   ensures[the_others_keep_their_order] forall i int :: 0 <= i && i < old(len(q.s)) ==> q.s[i] == old(q.s[i])
+
+//@ func (*writeScheduler).putEmptyQueue
+//@   props C40
+//@   nopanic
+//@   requires ws != nil && q != nil && len(q.s) == 0
+//@   modifies ws.queuePool, ws.queuePool[0:cap(ws.queuePool)]
+//@   ensures len(ws.queuePool) == old(len(ws.queuePool)) + 1 && ws.queuePool[len(ws.queuePool)-1] == q
+//@   ensures forall i int :: 0 <= i && i < old(len(ws.queuePool)) ==> ws.queuePool[i] == old(ws.queuePool[i])
+
+//@ spec headIsData(q *writeQueue) bool := typeis(q.s[0].frame, "*DataFrame") && len(unbox(q.s[0].frame, "*DataFrame").Data) > 0
+//@ spec wfHead(q *writeQueue) bool := q != nil && len(q.s) > 0 && (typeis(q.s[0].frame, "*DataFrame") ==> unbox(q.s[0].frame, "*DataFrame") != nil && len(unbox(q.s[0].frame, "*DataFrame").Data) <= 2147483647) && (headIsData(q) ==> q.s[0].stream != nil && q.s[0].stream.flow.conn != embed(q.s[0].stream, "flow") && q.s[0].stream.flow.conn != nil ==> true)
+
+//@ func (*writeScheduler).streamWritableBytes
+//@   props C40
+//@   nopanic
+//@   requires ws != nil && ws.maxFrameSize > 0 && ws.maxFrameSize <= 16777215
+//@   requires q != nil && len(q.s) > 0 && q.s[0].stream != nil && typeis(q.s[0].frame, "*DataFrame") && unbox(q.s[0].frame, "*DataFrame") != nil
+//@   modifies nothing
+//@   let av := flowAvail(embed(q.s[0].stream, "flow"))
+//@   let plen := len(unbox(q.s[0].frame, "*DataFrame").Data)
+//@   ensures[what_can_be_written_now] av > 0 ==> int(result0) == min(min(int(av), int(ws.maxFrameSize)), plen)
+//@   ensures[nothing_without_quota] av == 0 ==> result0 == 0
+
+//@ func (*writeScheduler).takeFrom
+//@   props C40
+//@   nopanic
+//@   requires ws != nil && ws.maxFrameSize > 0 && ws.maxFrameSize <= 16777215
+//@   requires q != nil && len(q.s) > 0
+//@   requires typeis(q.s[0].frame, "*DataFrame") ==> unbox(q.s[0].frame, "*DataFrame") != nil
+//@   requires headIsData(q) ==> q.s[0].stream != nil && q.s[0].stream.flow.conn != embed(q.s[0].stream, "flow") && flowAvail(embed(q.s[0].stream, "flow")) >= 0
+//@   requires[a_stream_queue_not_the_control_queue] q != embed(ws, "zero")
+//@   modifies *
+//@   let fl := embed(old(q.s[0].stream), "flow")
+//@   let wd := unbox(old(q.s[0].frame), "*DataFrame")
+//@   let av := old(flowAvail(embed(q.s[0].stream, "flow")))
+//@   let plen := old(len(unbox(q.s[0].frame, "*DataFrame").Data))
+//@   ensures[no_quota_then_nothing_is_sent_and_nothing_changes] old(headIsData(q)) && av == 0 ==> !result1 && fl.n == old(fl.n) && len(q.s) == old(len(q.s)) && q.s[0] == old(q.s[0]) && len(wd.Data) == plen
+//@   ensures[a_data_frame_fits_both_windows_and_the_frame_size] old(headIsData(q)) && av > 0 ==> result1 && typeis(result0.frame, "*DataFrame") && len(unbox(result0.frame, "*DataFrame").Data) <= int(av) && len(unbox(result0.frame, "*DataFrame").Data) <= int(old(ws.maxFrameSize)) && len(unbox(result0.frame, "*DataFrame").Data) == min(min(int(av), int(old(ws.maxFrameSize))), plen)
+//@   ensures[both_windows_shrink_by_exactly_the_bytes_sent] old(headIsData(q)) && av > 0 ==> int(fl.n) == int(old(fl.n)) - len(unbox(result0.frame, "*DataFrame").Data) && (old(fl.conn) != nil ==> int(old(fl.conn).n) == int(old(old(q.s[0].stream).flow.conn.n)) - len(unbox(result0.frame, "*DataFrame").Data))
+//@   ensures[a_split_sends_the_first_bytes_and_keeps_the_rest_at_the_head_of_the_queue] old(headIsData(q)) && av > 0 && plen > min(int(av), int(old(ws.maxFrameSize))) ==> len(q.s) == old(len(q.s)) && q.s[0] == old(q.s[0]) && sameslice(unbox(result0.frame, "*DataFrame").Data, old(wd.Data)[0:min(int(av), int(old(ws.maxFrameSize)))]) && sameslice(wd.Data, old(wd.Data)[min(int(av), int(old(ws.maxFrameSize))):plen]) && unbox(result0.frame, "*DataFrame").Flags == 0 && result0.stream == old(q.s[0].stream)
+//@   ensures[otherwise_the_head_message_itself_is_sent_and_leaves_the_queue] !(old(headIsData(q)) && (av == 0 || plen > min(int(av), int(old(ws.maxFrameSize))))) ==> result1 && result0 == old(q.s[0]) && len(q.s) == old(len(q.s)) - 1 && (forall i int :: 0 <= i && i < len(q.s) ==> q.s[i] == old(q.s[i+1]))
+//@   ensures[and_its_payload_is_the_one_that_was_queued] !(old(headIsData(q)) && (av == 0 || plen > min(int(av), int(old(ws.maxFrameSize))))) && typeis(old(q.s[0].frame), "*DataFrame") ==> sameslice(wd.Data, old(wd.Data))
+//@   ensures[the_control_queue_is_not_touched] sameslice(ws.zero.s, old(ws.zero.s)) && (result1 ==> result0.stream == old(q.s[0].stream))
+
+//@ spec wfQ(q *writeQueue) bool := q != nil && len(q.s) > 0 && (typeis(q.s[0].frame, "*DataFrame") ==> unbox(q.s[0].frame, "*DataFrame") != nil) && (headIsData(q) ==> q.s[0].stream != nil && q.s[0].stream.flow.conn != embed(q.s[0].stream, "flow") && flowAvail(embed(q.s[0].stream, "flow")) >= 0)
+//@ spec wfSched(ws *writeScheduler) bool := ws.maxFrameSize > 0 && ws.maxFrameSize <= 16777215 && (forall id uint32 :: has(ws.sq, id) ==> wfQ(ws.sq[id]) && ws.sq[id] != embed(ws, "zero") && (headIsData(ws.sq[id]) ==> ws.sq[id].s[0].stream.id == id)) && (forall i int :: 0 <= i && i < len(ws.zero.s) ==> !typeis(ws.zero.s[i].frame, "*DataFrame"))
+
+// control messages (no stream) wait in the control queue, stream messages in the stream queues
+//@ spec wfCtl(ws *writeScheduler) bool := (forall i int :: 0 <= i && i < len(ws.zero.s) ==> ws.zero.s[i].stream == nil) && (forall id uint32 :: has(ws.sq, id) ==> ws.sq[id] != nil && ws.sq[id] != embed(ws, "zero") && len(ws.sq[id].s) > 0 && ws.sq[id].s[0].stream != nil)
+
+//@ func (*writeScheduler).zeroCanSend
+//@   props C40
+//@   nopanic
+//@   requires ws != nil
+//@   modifies ws.canSend, ws.canSend[..]
+//@   ensures len(ws.canSend) == 0
+
+//@ func (*writeScheduler).take
+//@   props C40
+//@   nopanic
+//@   requires ws != nil && wfSched(ws) && len(ws.canSend) == 0
+//@   note the scheduler invariant (every stream queue is non-empty, is keyed by its stream's id, a DATA message at its head carries its stream, the control queue holds no DATA) is a precondition: its preservation by add/forgetStream is not proved
+//@   modifies *
+//@   ensures[a_data_frame_that_is_sent_fits_both_windows_and_the_frame_size] result1 && typeis(result0.frame, "*DataFrame") && len(unbox(result0.frame, "*DataFrame").Data) > 0 ==> result0.stream != nil && len(unbox(result0.frame, "*DataFrame").Data) <= int(old(flowAvail(embed(result0.stream, "flow")))) && len(unbox(result0.frame, "*DataFrame").Data) <= int(old(ws.maxFrameSize))
+//@   ensures[control_frames_go_first] old(wfCtl(ws)) && old(len(ws.zero.s)) > 0 ==> result1 && result0.stream == nil && len(ws.zero.s) == old(len(ws.zero.s)) - 1
+//@   ensures[a_stream_frame_leaves_the_control_queue_alone] old(wfCtl(ws)) && old(len(ws.zero.s)) == 0 ==> len(ws.zero.s) == 0 && (result1 ==> result0.stream != nil)
+//@   loop 1 invariant[nothing_changed_so_far] (old(wfCtl(ws)) ==> wfCtl(ws)) && sameslice(ws.zero.s, old(ws.zero.s))
+//@   loop 1 invariant[every_queue_seen_so_far_starts_with_data_that_costs_flow_control] ws != nil && wfSched(ws) && len(ws.canSend) == 0 && (forall id uint32 :: visited(id) && has(ws.sq, id) ==> headIsData(ws.sq[id]))
+//@   loop 2 invariant[nothing_changed_so_far] (old(wfCtl(ws)) ==> wfCtl(ws)) && sameslice(ws.zero.s, old(ws.zero.s))
+//@   loop 2 invariant[every_queue_starts_with_data_that_costs_flow_control] ws != nil && wfSched(ws) && (forall id uint32 :: has(ws.sq, id) ==> headIsData(ws.sq[id]))
+//@   loop 2 invariant[sendable_queues_are_stream_queues] forall i int :: 0 <= i && i < len(ws.canSend) ==> (exists id uint32 :: has(ws.sq, id) && ws.canSend[i] == ws.sq[id])
+
+//@ func (*writeScheduler).forgetStream
+//@   props C40
+//@   nopanic
+//@   requires ws != nil && (forall k uint32 :: has(ws.sq, k) ==> ws.sq[k] != nil)
+//@   modifies *
+//@   ensures[no_frame_of_an_ended_stream_stays_queued] !has(ws.sq, id)
+//@   ensures[other_streams_keep_their_queues] forall k uint32 :: k != id ==> has(ws.sq, k) == old(has(ws.sq, k)) && ws.sq[k] == old(ws.sq[k])
+
